@@ -669,6 +669,15 @@ fn one_history(a: &Args, mode: &str, seed: u64, obs: &mut Obs, violations: &mut 
                 d.stop();
             }
             world.lock().unwrap().advance(rng.range(0, 20_000_000_000) as i128);
+            // Half of the time the daemon did not stop cleanly but was killed inside an update: the
+            // generation is left odd and the record area holds the first words of a newer record.
+            if rng.chance(1, 2) {
+                let mono = world.lock().unwrap().mono_ns();
+                if tear_segment(&sim.path, &mut rng, mono) {
+                    history.push(format!("#{} daemon killed inside an update (segment left torn, generation odd)", n));
+                    sim.query(a, prop, true, "daemon-killed-mid-update-new-client", 0, obs, violations, &history, false);
+                }
+            }
             sim.query(a, prop, rng.chance(1, 2), "daemon-down", 0, obs, violations, &history, false);
             sim.start_daemon();
             history.push(format!("#{} daemon restart at mono {}", n, world.lock().unwrap().mono_ns()));
@@ -714,6 +723,33 @@ fn one_history(a: &Args, mode: &str, seed: u64, obs: &mut Obs, violations: &mut 
     clock::uninstall();
     let _ = std::fs::remove_dir_all(&sim.dir);
     Ok(history)
+}
+
+/// Leave the segment as a daemon killed in the middle of write() would: odd generation, the first
+/// k words of a record that was never completely published (a fresh timestamp and a small bound).
+fn tear_segment(path: &Path, rng: &mut Rng, mono_ns: i128) -> bool {
+    use std::os::unix::fs::FileExt;
+    let f = match std::fs::OpenOptions::new().read(true).write(true).open(path) {
+        Ok(f) => f,
+        Err(_) => return false,
+    };
+    let mut b = [0u8; 72];
+    if f.read_at(&mut b, 0).unwrap_or(0) != 72 {
+        return false;
+    }
+    let gen = u16::from_ne_bytes([b[14], b[15]]);
+    if gen == 0 {
+        return false;
+    }
+    let odd = if gen & 1 == 0 { gen.wrapping_add(1) } else { gen };
+    let as_of = ((mono_ns / NS) as i64, (mono_ns % NS) as i64);
+    let newer: [u64; 7] = [as_of.0 as u64, as_of.1 as u64, (as_of.0 + 1000) as u64, 0, rng.range(50, 5000) as u64, u64::from_ne_bytes(b[56..64].try_into().unwrap()), 1];
+    let k = 1 + rng.below(6) as usize;
+    f.write_at(&odd.to_ne_bytes(), 14).unwrap();
+    for (i, w) in newer.iter().enumerate().take(k) {
+        f.write_at(&w.to_ne_bytes(), 16 + 8 * i as u64).unwrap();
+    }
+    true
 }
 
 fn arg_tick(a: &Args) -> i128 {
